@@ -155,7 +155,10 @@ Deepening round: (1) RemoveUnusedOpsets is no longer frame-only: Opsets.v extend
   `holds:<pass>` / `OUTSIDE-HYPOTHESIS:<pass>` (only dce on BatchNormalization training_mode models so far = the known
   finding's domain).  This covers the schema table of optional outputs (nofuncopb) and the defaults table (tblokb), both
   read from onnx.defs per case.  NameFix / ClearMetadata / ShapeInference stay "term unchanged + annotation theorem".
-  Quick volume 40 -> 30 generated specs (CPU about 2 min).
+  Quick volume 40 -> 30 generated specs (CPU about 2 min), thorough 400 -> 300.  With the smaller volume r4m1 (inliner drops
+  falsy defaults of attribute parameters) was no longer hit by the general generator: targeted template (h) = function with
+  attribute defaults 0.0 / -0.0 not passed at the call (judge onnxruntime: the reference evaluator does not apply declared
+  defaults).  All 13 seeded changes re-evaluated after the round: caught with a concrete replay.
 Wall time: quick ~60-110 s under load (40 specs x (22 single passes + 5 sequences) + corpus), thorough ~9-12 min (400 specs).
 """
 
